@@ -77,6 +77,10 @@ def run_worker(binary, env_extra, timeout=None, capture=True):
     env = goenv()
     env.update({k: str(v) for k, v in env_extra.items()})
     env.setdefault("GOMAXPROCS", "1")
+    # goroutines of the code under test that the scheduler does not own (rpc and
+    # debugger internals) switch only where they block, not where the runtime's
+    # timer-based preemption happens to hit them
+    env["GODEBUG"] = (env.get("GODEBUG", "") + ",asyncpreemptoff=1").lstrip(",")
     return subprocess.Popen(
         [binary, "-test.run", "^TestWorker$", "-test.timeout", "0"],
         env=env, cwd=SIM,
